@@ -18,7 +18,7 @@ from concurrent.futures import ProcessPoolExecutor
 HERE = os.path.dirname(os.path.dirname(os.path.abspath(__file__)))
 sys.path.insert(0, HERE)
 
-PATHS = [b"a", b"a.b", b"a/b", b"a/c", b"a-", b"a0", b"a/b/d", b"b"]
+PATHS = [b"a", b"a.b", b"a/b", b"a/c", b"a-", b"a0", b"a/b/d", b"b", b"e/b"]      # (a/b and e/b: identical subtrees at two paths)
 A = b"e69de29bb2d1d6434b8b29ae775ad8c2e48c5391"      # the empty blob (added to the store by the harness)
 B = b"f70f10e4db19068f79bc43844b49f3eece45c4e8"      # blob b"A\n"
 KINDS = [(0o100644, A), (0o100644, B), (0o100755, A), (0o120000, A), (0o160000, B)]
@@ -224,7 +224,7 @@ def main():
     tier = sys.argv[sys.argv.index("--tier") + 1] if "--tier" in sys.argv else "quick"
     t0 = time.time()
     k = 3
-    step = 12 if tier == "quick" else 1
+    step = 32 if tier == "quick" else 1
     n = len(listings(k))
     jobs = [(k, n * c // 64, n * (c + 1) // 64, step) for c in range(64)]
     cases = 0
@@ -242,8 +242,8 @@ def main():
         cases += git_cross_check(k, fail)
     print(json.dumps({"name": "c12_trees", "function": "dulwich/index.py commit_tree, object_store.py iter_tree_contents/commit_tree_changes, diff_tree.py tree_changes/RenameDetector",
                       "cases": cases, "exhaustive": True,
-                      "bound": f"all {n} listings with <= {k} entries over 8 paths (file/directory conflicts, '/'-order traps) x 5 entry kinds; "
-                      + ("every 12th ordered pair of listings" if tier == "quick" else "all ordered pairs of listings; git 2.39 ls-tree / diff-tree cross-check on a sample"),
+                      "bound": f"all {n} listings with <= {k} entries over 9 paths (file/directory conflicts, '/'-order traps) x 5 entry kinds; "
+                      + ("every 32nd ordered pair of listings" if tier == "quick" else "all ordered pairs of listings; git 2.39 ls-tree / diff-tree cross-check on a sample"),
                       "failures": failures, "secs": round(time.time() - t0, 2)}))
 
 
